@@ -13,6 +13,7 @@ pub mod c11;
 pub mod c12;
 pub mod c13;
 pub mod c14;
+pub mod c16;
 pub mod c19;
 
 use crate::explore::{Limits, Violation};
@@ -45,6 +46,7 @@ pub fn sim_check(id: &str, tier: &str, _seed: i64) -> Option<SimCheck> {
         "C12" => Some(c12::build(tier)),
         "C13" => Some(c13::build(tier)),
         "C14" => Some(c14::build(tier)),
+        "C16" => Some(c16::build(tier)),
         "C19" => Some(c19::build(tier)),
         _ => None,
     }
@@ -56,6 +58,7 @@ pub fn other_parts(id: &str, tier: &str, _seed: i64) -> Vec<crate::report::Part>
         "C05" => vec![crate::enumc::c05::run(tier)],
         "C06" => vec![crate::enumc::c06::run(tier)],
         "C13" => vec![crate::enumc::c13::run(tier)],
+        "C16" => vec![crate::loomc::run(tier)],
         "C19" => vec![crate::enumc::c19::run(tier)],
         _ => vec![],
     }
